@@ -25,11 +25,17 @@ type GridSpec struct {
 	OY      float64 `json:"oy,omitempty"`
 	TWLog2  int     `json:"twlog2,omitempty"`
 	TopLeft bool    `json:"topleft,omitempty"`
+	// derived: the built-in set Name with every cell size multiplied by Factor (e.g. 0.5: the quarter at the point of origin),
+	// made by copying the TileMatrix structs in Go, so it shares the PointOfOrigin pointers with the built-in set
+	Factor float64 `json:"factor,omitempty"`
 }
 
 func (s GridSpec) String() string {
 	if s.Kind == "builtin" {
 		return s.Name
+	}
+	if s.Kind == "derived" {
+		return fmt.Sprintf("%s*%v", s.Name, s.Factor)
 	}
 	return fmt.Sprintf("syn(ntm=%d,px=2^%d,o=%v/%v,tw=2^%d,tl=%v)", s.NTM, s.PxLog2, s.OX, s.OY, s.TWLog2, s.TopLeft)
 }
@@ -82,6 +88,18 @@ func (s GridSpec) Build() (*kernel.Grid, error) {
 		tms, err = tms20.LoadEmbeddedTileMatrixSet(s.Name)
 		if err != nil {
 			return nil, err
+		}
+	} else if s.Kind == "derived" {
+		base, err := tms20.LoadEmbeddedTileMatrixSet(s.Name)
+		if err != nil {
+			return nil, err
+		}
+		tms = base
+		tms.TileMatrices = make(map[int]tms20.TileMatrix, len(base.TileMatrices))
+		for id, tm := range base.TileMatrices { // struct copies: the PointOfOrigin pointers are shared with the built-in set
+			tm.CellSize *= s.Factor
+			tm.ScaleDenominator *= s.Factor
+			tms.TileMatrices[id] = tm
 		}
 	} else {
 		tms = SyntheticTMS(s)
